@@ -346,6 +346,7 @@ fn collect_delete_targets_from_value(
 
 fn ensure_non_detach_delete_safety<S: GraphSnapshot>(
     snapshot: &S,
+    txn: &dyn WriteableGraph,
     detach: bool,
     nodes_to_delete: &[InternalNodeId],
     explicit_edges: &std::collections::HashSet<EdgeKey>,
@@ -362,6 +363,8 @@ fn ensure_non_detach_delete_safety<S: GraphSnapshot>(
         for edge in snapshot.incoming_neighbors(node_id, None) {
             attached.insert(edge);
         }
+        // Relationships created earlier in this statement or transaction are in no snapshot.
+        attached.extend(txn.staged_edges(node_id));
         for edge in attached {
             if !explicit_edges.contains(&edge) {
                 return Err(Error::Other(
@@ -407,7 +410,7 @@ pub(super) fn execute_delete_on_rows<S: GraphSnapshot>(
         }
     }
 
-    ensure_non_detach_delete_safety(snapshot, detach, &nodes_to_delete, &seen_edges)?;
+    ensure_non_detach_delete_safety(snapshot, txn, detach, &nodes_to_delete, &seen_edges)?;
 
     if detach {
         let mut detached_edges: std::collections::HashSet<EdgeKey> =
@@ -420,6 +423,12 @@ pub(super) fn execute_delete_on_rows<S: GraphSnapshot>(
                 }
             }
             for edge in snapshot.incoming_neighbors(node_id, None) {
+                if detached_edges.insert(edge) {
+                    txn.tombstone_edge(edge.src, edge.rel, edge.dst)?;
+                    deleted_count += 1;
+                }
+            }
+            for edge in txn.staged_edges(node_id) {
                 if detached_edges.insert(edge) {
                     txn.tombstone_edge(edge.src, edge.rel, edge.dst)?;
                     deleted_count += 1;
@@ -546,7 +555,7 @@ pub(super) fn execute_delete<S: GraphSnapshot>(
         }
     }
 
-    ensure_non_detach_delete_safety(snapshot, detach, &nodes_to_delete, &seen_edges)?;
+    ensure_non_detach_delete_safety(snapshot, txn, detach, &nodes_to_delete, &seen_edges)?;
 
     // If detach=true, delete all edges connected to nodes being deleted
     if detach {
@@ -561,6 +570,12 @@ pub(super) fn execute_delete<S: GraphSnapshot>(
                 }
             }
             for edge in snapshot.incoming_neighbors(node_id, None) {
+                if detached_edges.insert(edge) {
+                    txn.tombstone_edge(edge.src, edge.rel, edge.dst)?;
+                    deleted_count += 1;
+                }
+            }
+            for edge in txn.staged_edges(node_id) {
                 if detached_edges.insert(edge) {
                     txn.tombstone_edge(edge.src, edge.rel, edge.dst)?;
                     deleted_count += 1;
